@@ -158,6 +158,12 @@ def cast(ctx) -> None:
         comp = next((a for a in core.ancestors(casts[0]) if isinstance(a, (ast.ListComp, ast.GeneratorExp))), None)
         okc = comp is not None and comp.elt is casts[0] and len(comp.generators) == 1 and not comp.generators[0].ifs and core.src(casts[0].args[0]) == core.src(comp.generators[0].target)
     ctx.check(okc, 'C15.order', fn, 'each value of a non-matching column goes through the expected kind\'s cast - no per-value condition or filter', casts[0] if casts else fn.node, key='cast:every-value')
+    # ... and the cast column is the plain positional sequence: wrapped into an index-carrying container (pandas.Series,
+    # DataFrame) it would be *aligned by label* with the uncast columns of a frame entry instead of by position
+    if okc:
+        par = core.parent(comp)
+        wrapped = isinstance(par, ast.Call) and not (isinstance(par.func, ast.Name) and par.func.id in ('list', 'tuple'))
+        ctx.check(not wrapped, 'C15.order', fn, f'the cast values form a plain list next to the uncast columns (position-aligned), not `{core.src(par)[:60]}`', par, key='cast:plain-list')
 
 
 def slicer(ctx) -> None:
